@@ -130,8 +130,14 @@ theorem mem_set {α : Type} {l : List α} {i : Nat} {x y : α} (h : y ∈ l.set 
   · exact Or.inr h
   · exact Or.inl h
 
-theorem J_step_loc {U : List Msg} {k K : Nat} {c : Cluster} (hc : Compat U k K) (hj : J U k K c)
-    (i : Nat) (op : LOp) (hsub : ∀ m ∈ (c.step (.loc i op)).sent, m ∈ U) :
+/-- the local step, given that the local write absorbs the value it replaces (`Below`); how that
+    is known — one CRDT kind per key (`J_step_loc`) or a fresh greater stamp across a type change
+    (`Lemmas/TwoDeltas.lean`) — is the caller's business -/
+theorem J_step_loc_gen {U : List Msg} {k K : Nat} {c : Cluster} (hj : J U k K c)
+    (i : Nat) (op : LOp) (hsub : ∀ m ∈ (c.step (.loc i op)).sent, m ∈ U)
+    (hbelow : ∀ s old d, c.nodes[i]? = some s → NMap.get s.keys k = some old → op.key = k →
+      (Shard.step s op.toOp).2 = some d → foldOpt (absorbed c i k) = some old.strip →
+      Shard.Below old d) :
     J U k K (c.step (.loc i op)) := by
   cases hs : c.nodes[i]? with
   | none => simp only [step, hs]; exact hj
@@ -215,17 +221,7 @@ theorem J_step_loc {U : List Msg} {k K : Nat} {c : Cluster} (hc : Compat U k K) 
               simp only [Option.map_some] at hval
               rw [← hval]
               simp only [Option.map_some, Option.some.injEq]
-              have hold_car : InCarrier K (regsOf U k) old.strip :=
-                foldOpt_carrier hc.1 (absorbed_in_carrier hc hj i') hval.symm
-              have hd_car := compat_carrier hc hdU hkk
-              have hkind : old.crdt.kind = d.crdt.kind := by
-                have h1 : old.strip.crdt.kind = K := hold_car.2.1
-                have h2 : d.crdt.kind = K := hd_car.2.1
-                simp only [RV.strip] at h1
-                rw [h1, h2]
-              have hb := Shard.local_below s op old d hinv hinv2 hnwf.2 (by rw [hkk]; exact hgo) hd
-                hkind
-              exact hb.symm
+              exact (hbelow s old d hs hgo hkk hd hval.symm).symm
           · have : ¬ (True ∧ op.key = k) := fun h => hkk h.2
             simp only [this, if_false]
             rw [Shard.keys_step_other s op k (Ne.symm hkk)]
@@ -247,6 +243,24 @@ theorem J_step_loc {U : List Msg} {k K : Nat} {c : Cluster} (hc : Compat U k K) 
         · simp only [List.mem_singleton] at h
           subst h
           simp
+
+theorem J_step_loc {U : List Msg} {k K : Nat} {c : Cluster} (hc : Compat U k K) (hj : J U k K c)
+    (i : Nat) (op : LOp) (hsub : ∀ m ∈ (c.step (.loc i op)).sent, m ∈ U) :
+    J U k K (c.step (.loc i op)) := by
+  apply J_step_loc_gen hj i op hsub
+  intro s old d hs hgo hkk hd hval
+  have hsmem : s ∈ c.nodes := List.mem_of_getElem? hs
+  have ⟨hinv, hinv2, hnwf, _⟩ := hj.nodes_inv s hsmem
+  have hdU : (⟨i, op.key, d⟩ : Msg) ∈ U := hsub _ (by simp [step, hs, hd])
+  have hold_car : InCarrier K (regsOf U k) old.strip :=
+    foldOpt_carrier hc.1 (absorbed_in_carrier hc hj i) hval
+  have hd_car := compat_carrier hc hdU hkk
+  have hkind : old.crdt.kind = d.crdt.kind := by
+    have h1 : old.strip.crdt.kind = K := hold_car.2.1
+    have h2 : d.crdt.kind = K := hd_car.2.1
+    simp only [RV.strip] at h1
+    rw [h1, h2]
+  exact Shard.local_below s op old d hinv hinv2 hnwf.2 (by rw [hkk]; exact hgo) hd hkind
 
 theorem J_step_deliver {U : List Msg} {k K : Nat} {c : Cluster} (hj : J U k K c)
     (j idx : Nat) : J U k K (c.step (.deliver j idx)) := by
